@@ -20,12 +20,14 @@ REQUIRED_CLASSES = ['array-magnitude', 'temperature', 'temperature-prefixed-kelv
 REQUIRED_MONITORS = ['forward_compares', 'inverse_compares', 'identity_compares', 'sum_compares']
 ASSUMPTIONS = ['reference formulas are written from the definitions (vt/refmodel/templog_ref.py), SI prefixes hard-coded',
                'rtol 1e-9 plus an absolute term 1e-9*max(|T|,273.15) K for affine maps and 1e-9 bel for levels',
-               'B<->Np is compared with ln(10)/2 only to 5e-5 (the shipped 10-digit constant), invertibility to 1e-9',
+               'B<->Np is compared with ln(10)/2 (the value the two documented definitions imply: B = log10 PR, Np = ln(PR)/2) to 1e-9, like every other pair',
                'cross-family level conversions the docs do not list, Np+Np, and fraction forms whose denominator carries '
                'a factor on the level side (dBm/kHz) are not demanded']
 EXHAUSTIVE_SUBSPACES = {'quick': ['all ordered temperature unit pairs incl. every prefixed kelvin', 'all documented log/linear unit pairs x admissible prefixes'],
                         'thorough': ['all ordered temperature unit pairs incl. every prefixed kelvin', 'all documented log/linear unit pairs x admissible prefixes']}
 KEY_IDENT = 'C05-identity-conversion-missing'
+KEY_NPCONST = 'C05-bel-neper-constant-imprecise'
+OLD_NP_PER_B = 1.151277918      # the constant the library shipped (buggy twin of the repaired finding)
 
 PREF = [p for p in R.SI_PREFIX if p]
 TEMPS = [('', 'K'), ('', 'Cel'), ('', 'degF'), ('', 'degR')] + [(p, 'K') for p in PREF]
@@ -267,7 +269,11 @@ def _run(case, ctx):
         info = dict(u=ut, v=vt, x=x)
         res = guarded(lambda: conv(x, ut, vt, 'to'), s1, s2, 'bel-neper', info)
         if res is not None:
-            check(res[0], exp, 'bel-neper-ratio', 'forward_compares', 5e-5, 1e-9, info)
+            mon['forward_compares'] = mon.get('forward_compares', 0) + 1
+            if not close(res[0], exp, 1e-9, 1e-9):
+                twin = exp * (OLD_NP_PER_B / R.NP_PER_B if case['dir'] == 'b-to-np' else R.NP_PER_B / OLD_NP_PER_B)
+                devs.append(dev('bel-neper-ratio', dict(info, observed=res[0], expected=exp),
+                                known=KEY_NPCONST if close(res[0], twin, 1e-9, 1e-9) else None))
         back = guarded(lambda: float(Q(x, ut).to(vt).to(ut).magnitude.value), s1, s2, 'bel-neper-roundtrip', info)
         if back is not None:
             check(back, x, 'bel-neper-roundtrip', 'inverse_compares', 1e-9, 1e-9, info)
